@@ -185,6 +185,7 @@ def execLine2 (w : World) (line : String) : World × String :=
       | _, _ => (w, "bad-op")
     | _, _, _, _ => (w, "bad-op")
   | ["same", _, _] => (w, "ok")
+  | ["samesnap", _, _] => (w, "ok")
   | ["script", h, t] =>
     match parseHandle h, parseTextTok t with
     | some a, some text =>
